@@ -36,13 +36,17 @@ def itoa (n : Int) : Bytes :=
 def pow10Le (E : Int) (N D : Nat) : Bool :=
   if E ≥ 0 then 10 ^ E.toNat * D ≤ N else D ≤ N * 10 ^ (-E).toNat
 
-/-- `⌊log10 (N/D)⌋` for N, D > 0: estimate from the binary logarithms, corrected by comparisons -/
+/-- number of decimal digits of `n` (`1` for `0`) -/
+def numDigitsAux : Nat → Nat → Nat
+  | 0, _ => 1
+  | fuel + 1, n => if n < 10 then 1 else 1 + numDigitsAux fuel (n / 10)
+
+def numDigits (n : Nat) : Nat := numDigitsAux n n
+
+/-- `⌊log10 (N/D)⌋` for N, D > 0, by counting digits: of `⌊N/D⌋` when `N/D ≥ 1`, else of
+    `⌊(D-1)/N⌋` (`N * 10^e ≥ D` first holds at `e` = that digit count) -/
 def floorLog10 (N D : Nat) : Int :=
-  let est : Int := (((Nat.log2 N : Int) - (Nat.log2 D : Int)) * 1233) / 4096
-  let e1 := if pow10Le est N D then est else est - 1
-  let e2 := if pow10Le e1 N D then e1 else e1 - 1
-  let e3 := if pow10Le (e2 + 1) N D then e2 + 1 else e2
-  if pow10Le (e3 + 1) N D then e3 + 1 else e3
+  if D ≤ N then (numDigits (N / D) : Int) - 1 else - (numDigits ((D - 1) / N) : Int)
 
 /-- `⌊(N/D) / 10^j⌋` -/
 def floorScaled (N D : Nat) (j : Int) : Nat :=
